@@ -35,6 +35,7 @@ static void run(unsigned pm, int k, const vector<pair<int, int>> &targets, const
         for (int i = 0; i < 6; i++) if (pm >> i & 1) { ConnDirFlags d = c.dirMode == 0 ? (ConnDirFlags)ConnDirNone : c.dirMode == 1 ? DEFS[i].side : (ConnDirFlags)ConnDirAll;
             ShapeConnectionPin *p = c.proportional ? new ShapeConnectionPin(sh, 1, DEFS[i].px, DEFS[i].py, true, c.inside, d) : new ShapeConnectionPin(sh, 1, DEFS[i].ax, DEFS[i].ay, false, c.inside, d);
             if (c.excl == 1) p->setExclusive(true); else if (c.excl == 2) p->setExclusive(false);
+            if (c.dirMode == 0 && p->directions() != DEFS[i].side && why.empty()) { why = "automatic pin directions are not out of the side the pin is on"; obs = mcx::fmt("pin %s directions %u", DEFS[i].name, (unsigned)p->directions()); }   // documented default for visDirs
             if (c.costs && (npins % 2 == 0)) p->setConnectionCost(50);
             pins.push_back(p); npins++; }
         if (c.extra == 1) new ShapeConnectionPin(sh, 2, ATTACH_POS_CENTRE, ATTACH_POS_CENTRE, true, 0.0, ConnDirAll);
@@ -106,15 +107,50 @@ static void phase(const Cfg &c, const vector<unsigned> &pinsets, int maxk, int t
         if (!ctx.next()) continue; ctx.sample(mcx::fmt("pinmask %u k=%d targets #%zu #%zu", pm, k, t1, t2), 1);
         run(pm, k, {T[t1], T[t2]}, c); ctx.done_case(); }
 }
+
+// ShapeRef::transformConnectionPinPositions: "adjusts all of the shape's connection pin positions and visibility directions for a given transformation
+// type" (the caller has rotated / flipped the shape).  On a square shape the polygon is its own image, so: the pin's position after the call is the
+// geometric image of its position before (about the shape centre; y grows downward, so clockwise takes Right to Down), its visibility directions are the
+// images of its directions, the five transformations compose like the symmetries they name, and a connector routed afterwards ends on the moved pin.
+static Point timg(int t, Point p, Point c) { double x = p.x - c.x, y = p.y - c.y, nx = x, ny = y; switch (t) { case 0: nx = -y; ny = x; break; case 1: nx = -x; ny = -y; break; case 2: nx = y; ny = -x; break; case 3: nx = -x; break; case 4: ny = -y; break; } return Point(c.x + nx, c.y + ny); }
+static unsigned dimg(int t, unsigned d) { if (d == ConnDirNone || d == ConnDirAll) return d; unsigned r = 0; static const ConnDirFlags ring[4] = {ConnDirUp, ConnDirRight, ConnDirDown, ConnDirLeft};
+    for (int k = 0; k < 4; k++) if (d & ring[k]) { int j = k; if (t <= 2) j = (k + t + 1) % 4; else if (t == 3) j = (k % 2 == 1) ? (k + 2) % 4 : k; else j = (k % 2 == 0) ? (k + 2) % 4 : k; r |= ring[j]; } return r; }
+static void transform_phase() {
+    static const ShapeTransformationType TT[5] = {TransformationType_CW90, TransformationType_CW180, TransformationType_CW270, TransformationType_FlipX, TransformationType_FlipY};
+    static const char *TN[5] = {"CW90", "CW180", "CW270", "FlipX", "FlipY"};
+    ctx.phase("transformConnectionPinPositions on a square shape: 6 pin definitions x proportional/absolute x inside offset {0,3} x direction mode x every word of up to 2 transformations; position, directions, group laws, then a routed connector");
+    for (int i = 0; i < 6; i++) for (int prop = 0; prop < 2; prop++) for (double inside : {0.0, 3.0}) for (int dm = 0; dm < 3; dm++) for (int t1 = 0; t1 < 5; t1++) for (int t2 = -1; t2 < 5; t2++) for (int ortho = 0; ortho < 2; ortho++) {
+        if (!ctx.next()) continue; ctx.count("states"); ctx.count("evaluations"); ctx.count("nontrivial"); ctx.count("transitions", t2 >= 0 ? 3 : 2);
+        string desc = mcx::fmt("pin %s %s insideOffset=%g dirs=%s transform %s%s%s then a %s connector", DEFS[i].name, prop ? "proportional" : "absolute", inside, dm == 0 ? "automatic" : dm == 1 ? "side" : "all", TN[t1], t2 >= 0 ? " then " : "", t2 >= 0 ? TN[t2] : "", ortho ? "orthogonal" : "polyline");
+        ctx.sample(desc, 1); ctx.announce(desc);
+        try {
+            Router *r = new Router(ortho ? OrthogonalRouting : PolyLineRouting); Rectangle rect(Point(1.5 * S, 1.5 * S), Point(2.5 * S, 2.5 * S)); ShapeRef *sh = new ShapeRef(r, rect); Point ctr(2 * S, 2 * S);
+            ConnDirFlags d = dm == 0 ? (ConnDirFlags)ConnDirNone : dm == 1 ? DEFS[i].side : (ConnDirFlags)ConnDirAll;
+            ShapeConnectionPin *p = prop ? new ShapeConnectionPin(sh, 1, DEFS[i].px, DEFS[i].py, true, inside, d) : new ShapeConnectionPin(sh, 1, DEFS[i].ax, DEFS[i].ay, false, inside, d);
+            Point want = p->position(); unsigned wantd = p->directions();
+            sh->transformConnectionPinPositions(TT[t1]); want = timg(t1, want, ctr); wantd = dimg(t1, wantd);
+            if (t2 >= 0) { sh->transformConnectionPinPositions(TT[t2]); want = timg(t2, want, ctr); wantd = dimg(t2, wantd); }
+            Point got = p->position(); unsigned gotd = p->directions();
+            if (fabs(got.x - want.x) > 1e-9 || fabs(got.y - want.y) > 1e-9) ctx.violation("transformed pin position is not the image of the pin position", {}, desc, mcx::fmt("pin at (%g,%g), image of the original position is (%g,%g)", got.x, got.y, want.x, want.y));
+            else if (gotd != wantd) ctx.violation("transformed pin directions are not the images of the pin directions", {}, desc, mcx::fmt("directions %u, expected %u", gotd, wantd));
+            else { ConnRef *cn = new ConnRef(r, ConnEnd(sh, 1), ConnEnd(Point(4.5 * S, 0.5 * S))); r->processTransaction(); const PolyLine &dr = cn->displayRoute();
+                if (dr.size() < 2 || fabs(dr.ps[0].x - want.x) > 1e-9 || fabs(dr.ps[0].y - want.y) > 1e-9) ctx.violation("end not at a pin of the class", inside == 0 && dm != 2 ? vector<string>{"pin_on_boundary"} : vector<string>{}, desc, mcx::fmt("route starts at (%g,%g), pin at (%g,%g)", dr.size() ? dr.ps[0].x : 0.0, dr.size() ? dr.ps[0].y : 0.0, want.x, want.y)); }
+            delete r;
+        } catch (vpsc::CriticalFailure &f) { ctx.library_abort(f.what(), desc); }
+        ctx.done_case();
+    }
+}
 int main(int argc, char **argv) {
     ctx.init(argc, argv);
     bool TH = ctx.thorough();
     run(15, 2, {{0, 0}, {4, 4}}, {true, 3, true, 1, 0, 1, 0, false, 0});   // warm-up in system-malloc mode
     vector<unsigned> all; for (unsigned pm = 1; pm < 16; pm++) all.push_back(pm); all.push_back(48); all.push_back(48 + 1);
     vector<unsigned> few = {1, 3, 5, 10, 15, 48};
+    transform_phase();
     for (int ortho = 0; ortho < 2; ortho++) for (int heap = 1; heap <= 2; heap++) {
         for (int mv = 0; mv < 3; mv++) phase({(bool)ortho, 3, true, 1, 0, mv, 0, false, heap}, all, 2, 1);
         phase({(bool)ortho, 3, false, 1, 0, 2, 0, false, heap}, few, 2, 2);
+        phase({(bool)ortho, 3, false, 0, 0, 1, 0, false, heap}, few, 2, 2);   // absolute offsets with automatic directions
         phase({(bool)ortho, 3, true, 0, 0, 1, 0, false, heap}, few, 2, 2);
         phase({(bool)ortho, 3, true, 2, 1, 1, 0, false, heap}, few, 2, 2);
         phase({(bool)ortho, 3, true, 1, 2, 0, 0, false, heap}, few, 2, 2);
